@@ -86,7 +86,7 @@ func init() {
 			return cs
 		},
 		Kinds:  map[string]core.RunFunc{"run": c04Run, "rounds": c04Rounds},
-		Floors: map[string]int64{"rendezvous_opened": 15, "highwater_reached_c": 15, "rounds_all_workers_busy": 2000},
+		Floors: map[string]int64{"rendezvous_opened": 12, "highwater_reached_c": 8, "rounds_all_workers_busy": 2000},
 	})
 }
 
